@@ -3,9 +3,24 @@
 import json, os
 HERE = os.path.dirname(os.path.abspath(__file__))
 PY = "/venv/bin/python"
-import importlib.util, sys
+import importlib, importlib.util, sys
 sys.path.insert(0, HERE)
 from manifest_table import ADDED, CLAIMED, NOT_APPLICABLE, TIERS  # noqa: E402
+
+import re  # noqa: E402
+
+
+def rule_inventory(pid: str) -> str:
+    """One line per rule of the property, from the rule's own docstring (so the manifest lists what the check runs today)."""
+    mod = importlib.import_module(f"rules.{pid}")
+    items = []
+    for name, fn in mod.RULES:
+        doc = " ".join((fn.__doc__ or "").split())
+        doc = re.sub(rf"^{re.escape(name)}:\s*", "", doc)
+        first = re.split(r"(?<=[a-z)\]])\. (?=[A-Z(`])", doc, maxsplit=1)[0].rstrip(".")
+        items.append(f"{name.split('.', 1)[1]}: {first[:220]}")
+    return f" Rules run ({len(items)}): " + "; ".join(items) + "."
+
 
 checks = []
 for pid, d in sorted(CLAIMED.items()):
@@ -16,7 +31,7 @@ for pid, d in sorted(CLAIMED.items()):
         "evidence_file": f"/verif/evidence/{pid}.json",
         "replay_cmd_template": f"{PY} /verif/check {pid} --replay {{path}}",
         "engine": "sa",
-        "level_claimed": {"category": "other", "text": d["text"] + (" " + ADDED[pid] if pid in ADDED else "") + TIERS, "design_ref": d.get("design_ref", f"DESIGN.md section 4 {pid}")},
+        "level_claimed": {"category": "other", "text": d["text"] + (" " + ADDED[pid] if pid in ADDED else "") + rule_inventory(pid) + TIERS, "design_ref": d.get("design_ref", f"DESIGN.md section 4 {pid}")},
         "level_note": d["note"],
         "technique": d["technique"],
     })
